@@ -119,6 +119,7 @@ ACTION_LISTS = [
     [("recall",), ("scribble", "scrib-2")],
     [("defer", "A"), ("defer", "B"), ("recall",), ("post_lifo", "C")],
     [("current_state",)],
+    [("scribble", "before"), ("clear_spy",), ("scribble", "after")],
     [("scribble", "before"), ("current_state",), ("post_fifo", "B")],
 ]
 
